@@ -108,8 +108,27 @@ def nonzero(t: Term, p: State, fn: FunctionInfo, depth: int = 0) -> Tuple[bool, 
 
 def r13a(ctx):
     n = 0
-    for fn in quant_functions(ctx):
-        for p in paths(ctx.repo, fn):
+    fns = quant_functions(ctx)
+    # private module-level helpers of the quantizer modules are analysed where they are used:
+    # inlined into their callers (with the callers' guards); a helper that some anchored function
+    # calls is not judged on its own, out of context
+    import ast as _ast
+    names = {f.name for f in fns if f.cls is None}
+    used = set()
+    for f in fns:
+        for x in _ast.walk(f.node):
+            if isinstance(x, _ast.Call) and isinstance(x.func, _ast.Name) and \
+                    x.func.id in names and x.func.id != f.name:
+                used.add(x.func.id)
+    for fn in fns:
+        if fn.cls is None and fn.name in used and fn.name.startswith('_') and \
+                not fn.name.startswith('__'):
+            # still analysed through every caller below
+            called_by_public = True
+            if called_by_public:
+                continue
+        keep = tuple(sorted(n_ for n_ in names if not (n_ in used and n_.startswith('_'))))
+        for p in paths(ctx.repo, fn, keep=keep):
             terms = [x for e in p.events for x in e.data] + ([p.retval] if p.retval else [])
             seen = set()
             for t in terms:
